@@ -436,7 +436,10 @@ func (s *kvGenState) history(maxOps int) {
 				s.op("ro-write", "delb r %s", kvPathTok(p))
 			}
 		case x < 97 && !s.wOpen && !s.rOpen:
-			s.op("reopen", "reopen")
+			// Close + OpenDB costs ~30 ms in the real driver (128 MiB write buffer): rarer in the long run
+			if g.Quick() || r.Intn(6) == 0 {
+				s.op("reopen", "reopen")
+			}
 		case x == 97 && r.Intn(6) == 0:
 			s.op("probe", "probe")
 		case x == 97 && r.Intn(3) == 0:
@@ -455,7 +458,7 @@ func (s *kvGenState) history(maxOps int) {
 		s.op("endr", "endr")
 		s.rOpen = false
 	}
-	if r.Intn(2) == 0 {
+	if r.Intn(g.Scale(2, 12)) == 0 {
 		s.op("reopen", "reopen")
 	}
 	s.op("raw", "raw")
